@@ -75,7 +75,7 @@ pub struct Input {
     pub class: &'static str,
 }
 
-pub const KINDS: u64 = 12;
+pub const KINDS: u64 = 13;
 
 /// One corpus input. `max_len` bounds generated sizes (Miri uses small ones).
 pub fn gen_input(rng: &mut Rng, kind: u64, small: bool) -> Input {
@@ -164,6 +164,12 @@ pub fn gen_input(rng: &mut Rng, kind: u64, small: bool) -> Input {
             let v = adversarial::ver_overlap(rng, enc, total, var);
             let spec = adversarial::wrap_in_object(enc, None, Some(&v), None);
             Input { bytes: build(&spec, rng).bytes, what: format!("object with version sections: {}", v.what), class: "adversarial-symver" }
+        }
+        12 => {
+            o.density = 7;
+            let (mut spec, _) = gen_object(rng, enc, &o);
+            let what = adversarial::link_cycles(&mut spec, rng);
+            Input { bytes: build(&spec, rng).bytes, what: format!("generated {} with {what}", enc.name()), class: "adversarial-header-links" }
         }
         _ => {
             let (nb, al) = adversarial::huge_notes(rng, enc);
